@@ -1,4 +1,5 @@
 import PhyloModel.Props.C12
+import PhyloModel.Props.C12Stats
 #print axioms C12.tipDepthSum_eq
 #print axioms C12.tipDepthSumL_eq
 #print axioms C12.sackin_is_textbook
@@ -8,3 +9,6 @@ import PhyloModel.Props.C12
 #print axioms C12.refused_on_unrooted
 #print axioms C12.refused_on_nonbinary
 #print axioms C12.absDiff_symm
+#print axioms C12.C12_statistics
+#print axioms C12.C12_indices_defined
+#print axioms C12.C12_indices_refused
